@@ -251,6 +251,14 @@ pub fn c02(vectors: &[Value], seed: u64, max_exh: usize, nrandom: usize) -> Vec<
         }
         streams.push((json!(format!("r{}", k)), b, None, None));
     }
+    // messages of many small frames delivered in one read (a decoder must not give up after a budget of frames)
+    for k in [63usize, 64, 65, 66, 100, 257, 1000, 5000] {
+        let mut b = rc::greeting();
+        let frames: Vec<Vec<u8>> = (0..k).map(|i| vec![(i % 251) as u8; i % 3]).collect();
+        b.extend(rc::enc_msg(&frames));
+        b.extend(rc::enc_msg(&[b"after".to_vec()]));
+        streams.push((json!(format!("many{}", k)), b, None, None));
+    }
     for (id, bytes, exp_items, per) in streams {
         let parsed = rc::parse(&bytes, true);
         let ref_items = items_of_parsed(&parsed);
@@ -361,16 +369,25 @@ pub fn c02(vectors: &[Value], seed: u64, max_exh: usize, nrandom: usize) -> Vec<
         // layer B: decoder debug state after every prefix (one-shot feeds), against the model's table
         if let Some(per) = &per {
             for p in 1..=n.min(per.len()) {
-                let mut c = Codec::new();
-                let mut src = BytesMut::from(&bytes[..p]);
-                let mut guard = 0;
-                while let Ok(Some(_)) = c.decode(&mut src) {
-                    guard += 1;
-                    if guard > 1000 {
-                        break;
+                let r = catch_unwind(AssertUnwindSafe(|| {
+                    let mut c = Codec::new();
+                    let mut src = BytesMut::from(&bytes[..p]);
+                    let mut guard = 0;
+                    while let Ok(Some(_)) = c.decode(&mut src) {
+                        guard += 1;
+                        if guard > 1000 {
+                            break;
+                        }
                     }
-                }
-                let dbg = c.debug_state();
+                    c.debug_state()
+                }));
+                let Ok(dbg) = r else {
+                    bad += 1;
+                    if first_bad.is_null() {
+                        first_bad = json!({"cuts":[p],"panic":true,"one_shot_prefix":p});
+                    }
+                    break;
+                };
                 let st = per[p - 1][1].as_str().unwrap_or("");
                 let need = per[p - 1][2].as_i64().unwrap_or(0);
                 let st_ok = dbg.contains(&format!("state: {}", st));
